@@ -43,9 +43,16 @@ class T2(T0):
     pass
 
 
+class LateT:
+    """Referred to by name in an annotation before that name is bound in the function's module."""
+
+    def __init__(self, tag: Any) -> None:
+        self.tag = tag
+
+
 TYPES = [T0, T1, T2]
 ANNOTS = ["plain", "optional", "pep604", "str", "str_optional", "str_local", "none_first", "union_none_first", "str_none_first",
-          "optional_fwd", "union_fwd", "union_none_first_fwd"]
+          "optional_fwd", "union_fwd", "union_none_first_fwd", "str_late"]
 STATES = ["static", "factory", "async_factory", "inherited", "missing", "side_factory", "side_static"]
 # published only in a context that is NOT on the caller's chain (a child entered and left before the call): nothing matches
 MISSING_LIKE = ("missing", "side_factory", "side_static")
@@ -83,7 +90,7 @@ def cases(draw: Any, tier: str) -> dict:
     # at most one function-local type per case keeps the source simple
     seen_local = False
     for inj in injected:
-        if inj["annot"] == "str_local":
+        if inj["annot"] in ("str_local", "str_late"):
             if seen_local:
                 inj["annot"] = "str"
             seen_local = True
@@ -95,9 +102,14 @@ def cases(draw: Any, tier: str) -> dict:
         for inj in injected:
             if inj["annot"] == "str_local":
                 inj["annot"] = "str"
+    call = d.weighted([("same", 38), ("nested", 22), ("task", 16), ("none", 8), ("component", 16)])
+    if call in ("none", "component") or negative:
+        for inj in injected:
+            if inj["annot"] == "str_late":
+                inj["annot"] = "str"
     return {"backend": draw(BACKEND), "sched_seed": draw(SEED), "is_async": d.bool(), "method": method, "negative": negative,
             "params": params, "args": args, "injected": injected,
-            "call": d.weighted([("same", 38), ("nested", 22), ("task", 16), ("none", 8), ("component", 16)]), "second_call": d.pct(35),
+            "call": call, "second_call": d.pct(35),
             "future_annotations": d.pct(35),
             # before the call another context is entered and left again: "foreign" = made with an explicit parent
             # that is not the current context, "inner" = an ordinary nested one
@@ -138,6 +150,8 @@ def _annot(inj: dict) -> str:
         return f'Union["{t}", None]'
     if a == "union_none_first_fwd":
         return f'Union[None, "{t}"]'
+    if a == "str_late":
+        return '"LateT"'
     return '"LocalT"'
 
 
@@ -215,7 +229,7 @@ def compile_fn(case: dict, decorated: bool, marker: Any) -> tuple:
     # dont_inherit: this module's own `from __future__ import annotations` must not leak into the
     # generated code (the case decides whether its annotations are evaluated or kept as strings)
     exec(compile(src, "<generated>", "exec", dont_inherit=True), ns)
-    return ns["make"](inject, resource, marker, T0, T1, T2, Optional, Union)
+    return (*ns["make"](inject, resource, marker, T0, T1, T2, Optional, Union), ns)
 
 
 # ------------------------------------------------------------------------------------
@@ -263,6 +277,8 @@ class OneRun:
 
         def typ(inj: dict) -> type:
             LocalT = compiled[1]
+            if inj["annot"] == "str_late":
+                return LateT
             return LocalT if inj["annot"] == "str_local" else TYPES[inj["t"]]
 
         keep = []
@@ -356,6 +372,13 @@ class OneRun:
             populate(ctx, "call")
             await side_population()
             await block(outer)
+            if any(i["annot"] == "str_late" for i in case["injected"]):
+                # the annotation names a class that the function's module does not define yet: a call
+                # made now cannot resolve it (whatever it does is not judged) - one made after the
+                # name has been bound must
+                if self.decorated:
+                    self.early = await call()
+                compiled[2]["LateT"] = LateT
             if case["call"] == "task":
                 async def child() -> None:
                     self.result = await call()
